@@ -6,7 +6,7 @@ import srvprop
 
 def run(ctx):
     ctx.model_check('H2Teardown', 'H2Teardown.cfg', workers=8)
-    ctx.model_expect_violation('H2Teardown', 'H2Teardown_asfound.cfg', 'C17_Exit', workers=8)
+    ctx.model_expect_violation('H2Teardown', 'H2Teardown_asfound.cfg', 'violated', workers=8)
     srvprop.run(ctx, 'C17')
 
 
